@@ -96,9 +96,66 @@ def _stream_oracle(rec, cfg, out, name):
         rec["handler_calls"]) or any(e[0] == "none" and not e[2] for e in rec["events"])
 
 
+_KILLED = [0]
+
+
+def _isolated(case):
+    out = core.Outcome()
+    _judge_iter(case, out)
+    return out.violations, out.obs
+
+
+def hostile_line_cases():
+    """
+    Text lines that start like an NMEA sentence ('$' + talker letter), run on for a long stretch of
+    printable characters and then do NOT end the way a sentence does (checksum missing, '*' hit by
+    line noise, lower-case digits, a second '*', a control byte near the end, no LF at all).
+    Each is iterated in a forked child that is killed from outside on time-out.
+    """
+    f = items.frames()
+    fa, fb = f["F2"]["data"], f["F19"]["data"]
+    bodies = {
+        "fields": lambda n: (b"NGLL,5327.04319,N,00214.41396,W,223232.00,A,A,1.2,3.4,M,-22.1,M,,0000" * 9)[:n],
+        "letters": lambda n: (b"ABCDEFGHIJKLMNOPQRSTUVWXYZ0123456789" * 9)[:n],
+        "commas": lambda n: b"," * n,
+        "mixed": lambda n: (b"a,,b;c d,e-f.g/h" * 20)[:n],
+    }
+    ends = [b"\r\n", b"*5\r\n", b"*5g\r\n", b"\x0055\r\n", b"**55\r\n", b"*55\r\r\n", b"*55 \r\n",
+            b"*55", b"\n", b"*5\x00\r\n", b"*ff\r\n"]
+    out = []
+    for bn, mk in bodies.items():
+        for n in (26, 47, 120, 300):
+            for k, end in enumerate(ends):
+                for talker in ("G", "P"):
+                    if talker == "P" and k % 3:
+                        continue
+                    src = fa + b"$" + talker.encode() + mk(n) + end + fb + fa
+                    for q in (0, 1, 2):
+                        if q != 1 and (n not in (47, 300) or k % 2):
+                            continue
+                        out.append({"kind": "iter", "isolated": True, "source": src,
+                                    "stream": f"F2 + ${talker}{bn}x{n}{end!r} + F19 + F2",
+                                    "cfg": {"q": q, "v": 1, "p": True, "h": True}})
+    return out
+
+
 @core.guard
 def judge(case):
     out = core.Outcome()
+    if case.get("isolated"):
+        if _KILLED[0] >= 2:  # the verdict is settled; do not spend 10 s on every remaining case
+            out.nontrivial = False
+            return out
+        tag, val = core.in_child_timeout(_isolated, 10, case)
+        if tag == "timeout":
+            _KILLED[0] += 1
+            out.bad("nontermination:killed", f"iteration over {case.get('stream')} had not finished after "
+                    f"10 s and could only be stopped by killing the process")
+        elif tag == "died":
+            out.bad("foreign-exception:process-died", f"iteration over {case.get('stream')} killed the interpreter")
+        else:
+            out.violations, out.obs = list(val[0]), val[1]
+        return out
     if case.get("watchdog"):
         try:
             core.watchdog(20, _judge_iter, case, out)
@@ -495,7 +552,10 @@ def _explore_stream(name, source, cfgs, bound, tier, st):
 def run(tier, seed, t0):
     work = []
     sc = sock_cases(tier)
+    hl = hostile_line_cases()
     bc = byte_cases(tier) + corpus_cases(tier) + sc
+    for ch in core.chunks(hl, 40):
+        work.append(("bytes", ch, tier))
     for ch in core.chunks(bc, 1500):
         work.append(("bytes", ch, tier))
     seqs, cfgs = stream_cases(tier)
@@ -510,6 +570,7 @@ def run(tier, seed, t0):
                                      "cfg": {"q": 2, "v": 1, "p": True, "h": True}, "choices": [0, 0, 1]})
     st = core.pmap(_work, work)
     st.extra["byte_cases"] = len(bc) - len(sc)
+    st.extra["hostile_text_line_cases"] = len(hl)
     st.extra["socket_iteration_cases"] = len(sc)
     st.extra["streams"] = len(seqs)
     st.extra["reader_configurations"] = len(cfgs)
